@@ -39,4 +39,16 @@ CLAIMED["C16"] = dict(
          "parameter type are regenerated from /repo each run and checked deep by the kernel; dynamic address-range and "
          "write-visibility oracles on the implementation; unpack-aliasing and read-only clauses by harness observation (partial)",
     technique="machine-checked proof in Coq (nested induction over shapes) over translator-regenerated copy tables + reflect/unsafe aliasing oracle")
+CLAIMED["C14"] = dict(
+    text="Coq theorems over executable models of serveDNS (any accept policy, decoder outcome, transport), defaultMsgAcceptFunc "
+         "(case analysis over the whole header space), ServeMux.match (longest suffix on label boundaries, DS rule as coded, root "
+         "last resort, REFUSED) and the reply skeletons; models tied to /repo by vm_compute correspondence through the hooked "
+         "serveDNS/match on exhaustive header combinations and pattern sets each run",
+    technique="machine-checked proof in Coq (case analysis, induction over label boundaries) + model/implementation correspondence by vm_compute")
+CLAIMED["C12"] = dict(
+    text="Coq theorems: stream re-framing for every list of messages and EVERY segmentation (induction, no size bound), oversize "
+         "refused, short streams never yield partial messages, ID matching over stream and datagram exchanges, buffer-pool "
+         "transition system never lets a handler see another request's octets; models tied to /repo by scripted net.Conn / "
+         "PacketConn correspondence; cross-talk under real concurrency by runtime observation (partial)",
+    technique="machine-checked proof in Coq (induction over chunkings, invariant over the pool LTS) + model/implementation correspondence by vm_compute")
 NOT_YET = {}
